@@ -26,7 +26,10 @@ def one(name):
     try:
         with GIT:
             subprocess.check_call(["git", "-C", "/repo", "worktree", "add", "--detach", wt, "HEAD", "-q"])
-        subprocess.check_call(["git", "-C", wt, "apply", os.path.join(d, "patch.diff")])
+        if subprocess.call(["git", "-C", wt, "apply", os.path.join(d, "patch.diff")], stderr=subprocess.DEVNULL) != 0:
+            # written against an earlier commit of /repo (before later fix commits touched the same lines)
+            if subprocess.call(["git", "-C", wt, "apply", "-3", os.path.join(d, "patch.diff")], stdout=subprocess.DEVNULL, stderr=subprocess.DEVNULL) != 0:
+                return name, prop, -1, "patch no longer applies to the current tree (it was confirmed and detected at the commit it was written for)"
         env = dict(os.environ, VERIF_REPO=wt, VERIF_EVIDENCE_DIR=ev)
         p = subprocess.run(["timeout", "3600", os.path.join(V, "bin", "check"), prop, "quick"], env=env, stdout=subprocess.PIPE,
                            stderr=subprocess.STDOUT, universal_newlines=True)
@@ -39,7 +42,10 @@ def one(name):
 
 
 def main():
-    names = sys.argv[1:] or sorted(n for n in os.listdir(os.path.join(V, "seeded")) if os.path.isdir(os.path.join(V, "seeded", n)))
+    names = [a for a in sys.argv[1:] if not a.startswith("--from=")] or sorted(n for n in os.listdir(os.path.join(V, "seeded")) if os.path.isdir(os.path.join(V, "seeded", n)))
+    frm = next((a[7:] for a in sys.argv[1:] if a.startswith("--from=")), None)
+    if frm:
+        names = [n for n in names if n >= frm]
     rows = []
     with concurrent.futures.ThreadPoolExecutor(max_workers=int(os.environ.get("SEEDREG_PAR", "3"))) as ex:
         for name, prop, rc, first in ex.map(one, names):
@@ -49,7 +55,7 @@ def main():
         with open(os.path.join(V, "seeded", "REGRESSION.txt"), "w") as fh:
             fh.write("# harness/seedregress.py: every seeded change against the quick check of its property (exit 1 = detected)\n")
             fh.write("\n".join(rows) + "\n")
-    print("detected %d / %d" % (sum("exit=1" in r for r in rows), len(rows)))
+    print("detected %d / %d (not applicable any more: %d)" % (sum("exit=1\t" in r for r in rows), len(rows), sum("exit=-1" in r for r in rows)))
 
 
 if __name__ == "__main__":
